@@ -9,6 +9,7 @@ import GeomVerif.Driver.C01
 import GeomVerif.Driver.C02
 import GeomVerif.Driver.C08
 import GeomVerif.Driver.C09
+import GeomVerif.Driver.C16
 
 open GeomVerif GeomVerif.Wire
 
@@ -17,6 +18,7 @@ def dispatch (op : String) (inp go : Sexp) : Option Reply :=
   else if op.startsWith "C02." then Driver.C02.handle op inp go
   else if op.startsWith "C08." then Driver.C08.handle op inp go
   else if op.startsWith "C09." then Driver.C09.handle op inp go
+  else if op.startsWith "C16." then Driver.C16.handle op inp go
   else none
 
 def handleLine (line : String) : String :=
